@@ -59,6 +59,16 @@ impl Layout {
     }
 }
 
+/// byte-wise copy (a memcpy into the datagram array would make CBMC treat the whole array as one
+/// symbolic object and lose the pinned type/length words)
+fn put_bytes(b: &mut [u8], off: usize, src: &[u8]) {
+    let mut i = 0;
+    while i < src.len() {
+        b[off + i] = src[i];
+        i += 1;
+    }
+}
+
 fn put16(b: &mut [u8], off: usize, v: usize) {
     b[off] = (v >> 8) as u8;
     b[off + 1] = v as u8;
@@ -123,13 +133,20 @@ fn c07_body(lay: Layout, msg: &mut [u8], split: Split) -> Obs {
         msg[48] = 0xF5;
         msg[49] = 0xFF;
         put16(msg, 50, 4 + 23);
-        msg[52..75].copy_from_slice(DRAFT);
+        put_bytes(msg, 52, DRAFT);
         msg[75] = 0;
     }
     // version bits as the source expects them (other versions are dropped before anything is
     // looked at: C12); symbolic field types never are the NTPv5 draft-identification type (UTF-8
     // validation of symbolic bytes is out of reach; the genuine draft-id field is concrete)
-    kani::assume((msg[0] >> 3) & 7 == if lay.v5 { 5 } else { 4 });
+    // (leap bits 0, mode 4 = server: a response; other modes are dropped by the last check before
+    // process_message and leap bits only travel into the measurement)
+    msg[0] = if lay.v5 { 0x2C } else { 0x24 };
+    if lay.v5 {
+        // timescale UTC, flag byte 14 zero (anything else is a parse error); flag byte 15 symbolic
+        msg[12] = 0;
+        msg[14] = 0;
+    }
     if lay.v5 {
         if lay.y_len > 0 {
             kani::assume(!(msg[lay.y_off()] == 0xF5 && msg[lay.y_off() + 1] == 0xFF));
@@ -149,10 +166,10 @@ fn c07_body(lay: Layout, msg: &mut [u8], split: Split) -> Obs {
     msg[u + 1] = 0x04;
     put16(msg, u + 2, 36);
     if uid_match {
-        msg[u + 4..u + 36].copy_from_slice(&req_uid);
+        put_bytes(msg, u + 4, &req_uid);
     }
     if origin_match {
-        msg[24..32].copy_from_slice(&req_origin_bytes);
+        put_bytes(msg, 24, &req_origin_bytes);
     }
     if lay.y_len > 0 {
         put16(msg, lay.y_off() + 2, lay.y_len);
@@ -307,10 +324,12 @@ macro_rules! c07_nts {
         nharness! {
             #[kani::unwind(34)]
             #[kani::stub(core::str::from_utf8, crate::common::from_utf8_ascii_model)]
+            #[kani::stub(core::slice::ascii::is_ascii, crate::common::is_ascii_model)]
             fn $name() {
                 const L: Layout = $lay;
-                let mut msg: [u8; L.total()] = kani::any();
-                let o = c07_body(L, &mut msg, Split::Main);
+                // backing array one byte longer than the datagram (one-past-the-end folding)
+                let mut msg: [u8; L.total() + 1] = kani::any();
+                let o = c07_body(L, &mut msg[..L.total()], Split::Main);
                 kani::cover!(o.processed, "a genuine response is processed");
                 kani::cover!(o.got_cookie, "a genuine response delivers a cookie");
                 kani::cover!(o.forged_bound, "forgery with the right identifiers");
@@ -326,10 +345,12 @@ macro_rules! c07_plain {
         nharness! {
             #[kani::unwind(34)]
             #[kani::stub(core::str::from_utf8, crate::common::from_utf8_ascii_model)]
+            #[kani::stub(core::slice::ascii::is_ascii, crate::common::is_ascii_model)]
             fn $name() {
                 const L: Layout = $lay;
-                let mut msg: [u8; L.total()] = kani::any();
-                let o = c07_body(L, &mut msg, Split::Main);
+                // backing array one byte longer than the datagram (one-past-the-end folding)
+                let mut msg: [u8; L.total() + 1] = kani::any();
+                let o = c07_body(L, &mut msg[..L.total()], Split::Main);
                 assert!(!o.processed && !o.auth_kiss, "nothing is accepted without an authenticator");
                 kani::cover!(o.unauth_kiss_bound, "unauthenticated kiss code with the right identifiers");
                 kani::cover!(o.unauth_bound, "unauthenticated datagram with the right identifiers");
@@ -343,10 +364,11 @@ macro_rules! c07_kf {
         nharness! {
             #[kani::unwind(34)]
             #[kani::stub(core::str::from_utf8, crate::common::from_utf8_ascii_model)]
+            #[kani::stub(core::slice::ascii::is_ascii, crate::common::is_ascii_model)]
             fn $name() {
                 const L: Layout = $lay;
-                let mut msg: [u8; L.total()] = kani::any();
-                let _ = c07_body(L, &mut msg, Split::KfAuthnakKiss);
+                let mut msg: [u8; L.total() + 1] = kani::any();
+                let _ = c07_body(L, &mut msg[..L.total()], Split::KfAuthnakKiss);
             }
         }
     };
